@@ -255,6 +255,60 @@ def wrong_seed_recovers(f):
     return (len(bad) == len(outs)), bad[:1]
 
 
+def challenges_unchanged(f):
+    """C04: changing one absorbed datum leaves the challenges unchanged. Observables on the real crates: (i) the mask returned by
+    RecoverOnly for a seeded single-commitment statement (a function of every challenge), (ii) bytes squeezed from the caller's
+    transcript after verify_batch. detail: n, x, m, cap, datum, rounds"""
+    d = f.detail
+    n, x, m, cap, datum, rounds = d['n'], d['x'], d['m'], d['cap'], d['datum'], d['rounds']
+    kind = datum.split(' ')[0].split('_')[0]
+    idx = int(datum.replace('_', ' ').split(' ')[-1]) if datum[-1].isdigit() else 0
+    alt = {}
+    if kind == 'transcript':
+        alt = {'verify_label': 'alt'}
+    elif kind == 'H':
+        alt = {'tamper_statement': {'op': 'h_base'}}
+    elif kind == 'G':
+        alt = {'tamper_statement': {'op': 'g_base', 'k': idx}}
+    elif kind == 'commitment':
+        alt = {'tamper_statement': {'op': 'commitment_add_delta_basis', 'j': idx, 'basis': {'b': 'h'}}}
+    elif kind == 'promise':
+        alt = {'tamper_statement': {'op': 'promise', 'j': idx, 'value': 'other'}}
+    elif kind == 'bit':
+        alt = {'tamper_statement': {'op': 'bit_length', 'n': n * 2 if n < 64 else n // 2}}
+    elif kind in ('extension', 'aggregation'):
+        return None, 'integer field: not replayable by a single-datum change through the API'
+    else:
+        e = {'A': x, 'A1': x + 1, 'B': x + 2}.get(kind)
+        if e is None:
+            e = x + 5 + 2 * idx + (1 if kind == 'R' else 0)
+        alt = {'tamper': {'op': 'point_add_delta_basis', 'elem': e, 'basis': {'b': 'h'}}}
+    found = []
+    for (mm, cc, seeded) in ((1, 1, True), (m, cap, False)):
+        if mm == 1 and kind in ('commitment', 'promise') and idx > 0:
+            continue
+        if mm == 1 and kind in ('L', 'R') and idx >= (n).bit_length() - 1:
+            continue
+        base = {'m': mm, 'cap': cc, 'seeded': seeded, 'promises': ['3' if n >= 2 else None] * mm}
+        obs = []
+        for variant in (base, dict(base, **alt)):
+            o = run_replay({'scenario': 'batch', 'n': n, 'x': x, 'members': [variant], 'actions': ['RecoverOnly']}, 1)
+            if 'crash' in o or not o.get('verify'):
+                obs.append(None)
+                continue
+            v = o['verify'][0]
+            obs.append((v.get('masks'), v.get('logs_after')) if v['result'] == 'ok' else ('refused', v['result']))
+        if obs[0] is None or obs[1] is None or obs[0][0] == 'refused' or obs[1][0] == 'refused':
+            continue
+        if seeded and obs[0][0] == obs[1][0]:
+            found.append({'datum': datum, 'observable': 'RecoverOnly mask identical although the datum changed', 'mask': obs[0][0]})
+        if obs[0][1] == obs[1][1]:
+            found.append({'datum': datum, 'observable': 'caller transcript state after verification identical although the datum changed'})
+        if found:
+            break
+    return (len(found) > 0), found[:2]
+
+
 def relation_disagrees(f):
     """C02: the library's verdict differs from the independent unoptimised evaluation of the relation
     (replay crate, refimpl.rs) on an honest proof or on a perturbed proof of the same configuration"""
